@@ -73,7 +73,12 @@ func (m *Model) UpdatePositions(positions *traits.OpenClosePositions, opts ...re
 		if preset == nil {
 			return nil, status.Errorf(codes.InvalidArgument, "preset %q not found", positions.Preset.Name)
 		}
-		positions.States = presetPositions
+		// copies, because positions is the caller's message: the writes below filter each state in place and the
+		// caller may change them afterwards, neither of which may reach the positions the preset stands for
+		positions.States = make([]*traits.OpenClosePosition, len(presetPositions))
+		for i, position := range presetPositions {
+			positions.States[i] = proto.Clone(position).(*traits.OpenClosePosition)
+		}
 	}
 
 	writeRequest := resource.ComputeWriteConfig(opts...)
